@@ -226,6 +226,9 @@ func (d *driver) runChain(items []*item) {
 	d.mu.Lock()
 	for _, f := range fs {
 		j := owner[f.block]
+		if f.sig["kind"] == "panic" && f.sig["input"] == "block" && items[j].k.Kind == "grid" {
+			f.sig["input"] = items[j].cls // the block is the grid tx between two neighbour txs
+		}
 		h := hit{order: items[j].id, alone: len(items) == 1, sig: f.sig, item: items[j], where: fmt.Sprintf("block %d of the case, tx %d", f.block-first[j]+1, f.tx), detail: f.detail}
 		if len(items) > 1 {
 			h.chain = items
@@ -273,7 +276,7 @@ func (d *driver) flush(run *core.Run) {
 	// confirmation runs (sequential, few)
 	for _, h := range hits {
 		k := key(h.sig)
-		if confirmed[k] || h.alone || tried[k] >= 3 {
+		if confirmed[k] || h.alone || tried[k] >= 2 {
 			continue
 		}
 		tried[k]++
@@ -520,7 +523,7 @@ func main() {
 
 	// ---- schedule: items expected to panic run alone; the others are dealt round-robin into
 	// chains (long-running ones first, so that every chain gets its share)
-	chainLen := 64
+	chainLen := 128
 	var solo, rest []*item
 	for _, it := range items {
 		if it.risky {
@@ -574,10 +577,10 @@ func main() {
 			"payload P = {empty, 1 byte, 31/32/33/51/52 pattern bytes, 52 zero bytes, KV marker only, KV marker + bad RLP, valid KV, KV with 257-byte key, KV with 4097-byte value, Store.set call, Store.fail (reverting) call, spin code 5b600056, admin-op calldata accepted by the callback, admin-op calldata refused} (18); " +
 			"nonce N = {cur-1, cur, cur+1}; gas limit G = {0, 1, 10^7, 2^64-1}; gas price Pr = {0, 1, 2^256-1}; value V = {0, balance, balance+1}; signature S = {valid, v flipped (a valid signature of another address), v=29, r=0, high-s twin, EIP-155 chain 1, EIP-155 chain 9}. " +
 			"Thorough enumerates, all other dimensions at the default (EOA, empty, cur, 10^7, 0, 0, valid): A = R x P x N (Loop recipient restricted to P in {empty, set, kv, b52}); B = R x G x Pr x V; C = S x N x {empty, kv, set} x {create, 0xfe, Store, EOA, self}; D = {Store, 0xfe, create} x P x G x Pr; E = {Store, 0xfe, create, EOA} x P x V; F = S x R and S x P(to Store); G' = {Store, EOA, create, 0xfe} x N x G x Pr x V; duplicates removed; of the combinations that make the interpreter spin to its 10^8-gas budget (~0.6 s each) only a fixed subset is kept. " +
-			"Quick enumerates A with N != cur only for P in {empty, kv, set}; B without G=0, Pr=max, V=balance; C for P in {kv, set} and R in {0xfe, Store, self}; F = S x R. " +
+			"Quick enumerates A with N != cur only for P in {empty, kv, set} and the Loop recipient only with P in {empty, kv}; B without G=0, Pr=max, V=balance; C for P in {kv, set} and R in {0xfe, Store, self}; F = S x R. " +
 			"Every grid tx gives three cases, each with a sender of its own: (i)+(iii) alone in a block and again in the next block, (ii) twice in one block, (iv) between a valid contract call and a valid KV put of another sender. " +
 			"Raw block txs: the empty string alone, the other 65792 byte strings of length <= 2 in blocks of 1024 followed by one valid tx, and for three valid encoded txs (transfer, KV put, contract call with log) every single-byte replacement by {00,01,7f,80,ff} and every proper prefix in blocks of 64 followed by one valid tx; a block that panics is bisected so that the remaining strings are still judged. " +
-			"Cases are executed in chains of ~64 on one application instance (fresh copy of the base state per chain; cases expected to panic run alone; after a panic the rest of the chain is re-run on a new instance); the oracle is evaluated on the whole block sequence, its counterfactual (the sequence without every tx reported invalid) runs on another fresh copy; a finding is re-confirmed with its case alone on a fresh base state. " +
+			"Cases are executed in chains of ~128 on one application instance (fresh copy of the base state per chain; cases expected to panic run alone; after a panic the rest of the chain is re-run on a new instance); the oracle is evaluated on the whole block sequence, its counterfactual (the sequence without every tx reported invalid) runs on another fresh copy; a finding is re-confirmed with its case alone on a fresh base state. " +
 			"evaluations = (tx, placement) pairs judged (raw: one per string); distinct_nontrivial = distinct (input class, placement, per-block verdict pattern with normalised error text) outcomes observed.",
 	}, []string{
 		"funded accounts are a harness state: on the real chain no balance ever exists (genesis allocates only the admin contract, nothing mints); value/gas-price dimensions are therefore explored from a state the real chain cannot reach, all other dimensions from one it can",
